@@ -788,10 +788,11 @@ impl MdkStorageProvider for MdkMemoryStorage {
     fn create_group_snapshot(&self, group_id: &GroupId, name: &str) -> Result<(), MdkStorageError> {
         // Create a group-scoped snapshot that only captures data for this group.
         // This ensures that rolling back this snapshot won't affect other groups.
+        // The snapshot map stays locked while the state is copied (lock order: snapshots, then
+        // inner), so that taking and consuming a snapshot are atomic with respect to each other.
+        let mut snapshots = self.group_snapshots.write();
         let snapshot = self.create_group_scoped_snapshot(group_id);
-        self.group_snapshots
-            .write()
-            .insert((group_id.clone(), name.to_string()), snapshot);
+        snapshots.insert((group_id.clone(), name.to_string()), snapshot);
         Ok(())
     }
 
@@ -801,10 +802,10 @@ impl MdkStorageProvider for MdkMemoryStorage {
         name: &str,
     ) -> Result<(), MdkStorageError> {
         let key = (group_id.clone(), name.to_string());
-        // Remove and restore the snapshot (consume it)
-        let snapshot = self
-            .group_snapshots
-            .write()
+        // Remove and restore the snapshot (consume it) in one step: the snapshot map stays locked
+        // until the state is restored (lock order: snapshots, then inner)
+        let mut snapshots = self.group_snapshots.write();
+        let snapshot = snapshots
             .remove(&key)
             .ok_or_else(|| MdkStorageError::NotFound("Snapshot not found".to_string()))?;
         self.restore_group_scoped_snapshot(snapshot);
